@@ -152,6 +152,10 @@ pub fn directed() -> Vec<Program> {
         on("Dog", vec![fld("barks"), Sel::obj("friends", vec![t(), on("Cat", vec![fld("lives")]), on("Dog", vec![fld("color")])]), Sel::obj("owner", vec![Sel::obj("best", vec![t(), on("Dog", vec![fld("barks")])])])]),
         on("Person", vec![fld("name")]),
         on("Cat", vec![fld("lives")])])])], |_| {}));
+    // 17. selections that leave a struct without any Rust field: only `__typename`, at the root and below it
+    //     (an object payload must still be accepted there, and come back as an object)
+    out.push(prog(vec![op("OnlyTypename", vec![t()])], |_| {}));
+    out.push(prog(vec![op("NestedOnlyTypename", vec![Sel::obj("me", vec![t()]), Sel::obj("dog", vec![t(), Sel::obj("owner", vec![t()])])])], |_| {}));
     // 11. the same schema, the extension's implementor only as a runtime type
     out.push(prog_on(zoo_extended(), vec![
         op("ExtendedPlain", vec![Sel::obj("named", vec![t(), fld("name")]), Sel::obj("me", vec![fld("age"), fld("name")])]),
